@@ -5,8 +5,10 @@
 //	             Host.SetHealthFlag / ClearHealthFlag and records operation boundaries and what
 //	             HealthFlag()/Health() answered while every writer was parked (binding B3).
 //	-mode thr    replays every result sequence TLC enumerated from HealthChecker through the real health checker
-//	             (CreateHealthCheck, real timers, scripted session factory) and records the callback arguments
-//	             and the host's flag word inside every callback (binding B1).
+//	             (CreateHealthCheck, real timers, scripted session factory; late answers of timed-out checks are
+//	             delivered at the enumerated position relative to the loop events hc.ontimeout / hc.timeout /
+//	             hc.resp / hc.idle) and records the callback arguments and the host's flag word inside every
+//	             callback (binding B1).
 //
 // TLC validates both traces (HealthFlagsTrace, HealthCheckerTrace).
 package main
@@ -283,7 +285,19 @@ func runFlags(casesPath, tracePath string, mix bool) {
 	fmt.Printf("flags cases=%d events=%d gates=%d skipped_steps=%d\n", ncase, tr.Len(), gatesSeen, diverged)
 }
 
-// ---------------------------------------------------------------- thresholds (B1)
+// ---------------------------------------------------------------- thresholds (B1, event driven)
+//
+// One controller goroutine per case steers the real checker through the scripted session and the loop events:
+//   call       CheckHealth call k entered (check k started); the controller answers it when the script says so
+//   ontimeout  the timeout timer fired (hook hc.ontimeout, held until the controller lets the signal through)
+//   resp       the loop took an answer (hook hc.resp: id of the answer, id the loop waits for)
+//   timeout    the loop took a timeout signal (hook hc.timeout)
+//   idle       the loop is about to wait again (hook hc.idle): whatever it took has been handled
+//   cb         health-check callback (host, changed, isHealthy)
+// Answers given at once can never lose against the timer (a timer that fires for them is simply held), so no
+// verdict depends on scheduling delays.  A late answer of check k is delivered at position
+//   0 after its timer fired, before the signal is let through   1 after the timeout was handled, before check k+1
+//   2 after check k+1 started (CheckHealth entered)              3 after check k+1 was handled, before check k+2
 
 type thrCase struct {
 	Ut   uint32   `json:"ut"`
@@ -292,73 +306,74 @@ type thrCase struct {
 	Seq  []string `json:"seq"`
 }
 
+type cev struct {
+	kind    string
+	k       int
+	ans     chan bool
+	hold    chan struct{}
+	id, cur uint64
+	rec     vh.Ev
+}
+
 type caseRun struct {
-	c        thrCase
-	host     types.Host
-	mu       sync.Mutex
-	calls    int
+	c     thrCase
+	host  types.Host
+	ev    chan cev
+	calls int32
+	over  int32
+	evs   []vh.Ev
+	// controller state
+	answers  map[int]chan bool
+	holds    []chan struct{}
+	takes    int  // answers + timeout signals the loop took
+	resps    int
+	timeouts int
+	settled  bool // the loop went idle after the last thing it took (hc.idle after hc.resp / hc.timeout)
+	silent   bool // some check ended without any callback
 	cbs      int
-	evs      []vh.Ev
-	rel      []chan struct{} // rel[k]: closed when the late answer of call k may be delivered
-	done     chan struct{}   // closed when the case is over
-	finished chan struct{}
-	stale    chan uint64
-	over     int32
-	extra    int32
-	enter    []time.Time // enter[k]: when CheckHealth call k was entered
-	slow     bool        // an immediate answer was reported much later than it was given
+	cbFor    map[int]int // check -> callbacks seen while it was the latest check
+	shifted  int         // deliveries that were not finished before the next check started
 }
 
 type worker struct {
 	addr string
-	host types.Host
+	info types.ClusterInfo
 	cur  atomic.Value // *caseRun
-	// a checker of an earlier case touched this address after that case ended
-	polluted int64
 }
 
 var workers sync.Map // addr -> *worker
 
 type session struct{ r *caseRun }
 
-func isLate(s string) bool { return s == "late_ok" || s == "late_fail" }
+// latePos: -1 unless s is lateP_ok / lateP_fail
+func latePos(s string) int {
+	if len(s) > 5 && s[:4] == "late" && s[4] >= '0' && s[4] <= '3' && s[5] == '_' {
+		return int(s[4] - '0')
+	}
+	return -1
+}
+func lateAns(s string) bool { return len(s) > 6 && s[6:] == "ok" }
+
+func (r *caseRun) send(e cev) bool {
+	if atomic.LoadInt32(&r.over) == 1 {
+		return false
+	}
+	select {
+	case r.ev <- e:
+		return true
+	case <-time.After(5 * time.Second):
+		return false
+	}
+}
 
 func (s *session) CheckHealth() bool {
 	r := s.r
-	r.mu.Lock()
-	r.calls++
-	k := r.calls
-	if k < len(r.enter) {
-		r.enter[k] = time.Now()
+	k := int(atomic.AddInt32(&r.calls, 1))
+	ans := make(chan bool, 1)
+	if !r.send(cev{kind: "call", k: k, ans: ans}) {
+		select {}
 	}
-	r.mu.Unlock()
-	n := len(r.c.Seq)
-	if k >= 2 && k-1 <= n && isLate(r.c.Seq[k-2]) {
-		// the previous check timed out; its answer arrives now, while this check is in progress
-		close(r.rel[k-1])
-		select {
-		case <-r.stale: // the checker consumed the late answer
-		case <-time.After(30 * time.Millisecond):
-		case <-r.done:
-		}
-	}
-	if k > n {
-		select {} // beyond the script: never answers
-	}
-	switch r.c.Seq[k-1] {
-	case "ok":
-		return true
-	case "fail":
-		return false
-	case "late_ok", "late_fail":
-		select {
-		case <-r.rel[k]:
-			return r.c.Seq[k-1] == "late_ok"
-		case <-r.done:
-			select {}
-		}
-	}
-	select {} // "timeout": never answers
+	return <-ans // never for a check that does not answer
 }
 
 func (s *session) OnTimeout() {}
@@ -371,90 +386,223 @@ func (factory) NewSession(cfg map[string]interface{}, host types.Host) types.Hea
 		return nil
 	}
 	r, _ := v.(*worker).cur.Load().(*caseRun)
-	if r == nil {
+	if r == nil || r.host != host {
 		return nil
 	}
 	return &session{r: r}
 }
 
 const (
-	hcTimeout  = 40 * time.Millisecond
-	hcInterval = time.Millisecond
-	noiseLimit = 8 * time.Millisecond
+	hcTimeout  = 10 * time.Millisecond
+	hcInterval = 2 * time.Millisecond
 )
 
-var lastNoise int64 // unix nanos of the last scheduling stall seen by the watchdog
-
-func watchdog() {
-	const tick = 500 * time.Microsecond
-	for {
-		t0 := time.Now()
-		time.Sleep(tick)
-		if time.Since(t0)-tick > noiseLimit {
-			atomic.StoreInt64(&lastNoise, time.Now().UnixNano())
+// thrSink routes the loop events of the checker under observation to its controller.
+func thrSink(ev string, kv []interface{}) {
+	if len(ev) < 3 || ev[:3] != "hc." || len(kv) == 0 {
+		return
+	}
+	h, _ := kv[0].(types.Host)
+	if h == nil {
+		return
+	}
+	var r *caseRun
+	if v, ok := workers.Load(h.AddressString()); ok {
+		r, _ = v.(*worker).cur.Load().(*caseRun)
+	}
+	mine := r != nil && r.host == h
+	switch ev {
+	case "hc.ontimeout":
+		if !mine {
+			select {} // the timer of a checker whose case is over: its signal is never delivered
+		}
+		hold := make(chan struct{})
+		if !r.send(cev{kind: "ontimeout", hold: hold}) {
+			select {}
+		}
+		<-hold
+	case "hc.resp":
+		if mine && len(kv) >= 3 {
+			id, _ := kv[1].(uint64)
+			cur, _ := kv[2].(uint64)
+			r.send(cev{kind: "resp", id: id, cur: cur})
+		}
+	case "hc.timeout":
+		if mine {
+			r.send(cev{kind: "timeout"})
+		}
+	case "hc.idle":
+		if mine {
+			r.send(cev{kind: "idle"})
 		}
 	}
 }
 
-func (w *worker) run(c thrCase) (*caseRun, string) {
-	t0 := time.Now()
-	poll0 := atomic.LoadInt64(&w.polluted)
-	r := &caseRun{c: c, host: w.host, done: make(chan struct{}), finished: make(chan struct{}), stale: make(chan uint64, 16)}
-	r.enter = make([]time.Time, len(c.Seq)+2)
-	r.rel = make([]chan struct{}, len(c.Seq)+2)
-	for i := range r.rel {
-		r.rel[i] = make(chan struct{})
+type diverged struct{ what string }
+
+func (r *caseRun) absorb(e cev) {
+	switch e.kind {
+	case "call":
+		r.answers[e.k] = e.ans
+	case "ontimeout":
+		r.holds = append(r.holds, e.hold)
+	case "resp":
+		r.resps++
+		r.takes++
+		r.settled = false
+	case "timeout":
+		r.timeouts++
+		r.takes++
+		r.settled = false
+	case "idle":
+		r.settled = true // same goroutine as resp/timeout/cb: everything taken before has been handled
+	case "cb":
+		r.cbs++
+		k := e.k
+		e.rec["n"] = r.cbs
+		if k >= 1 && k <= len(r.c.Seq) && r.cbFor[k] == 0 {
+			e.rec["ev"] = "check"
+			e.rec["r"] = r.c.Seq[k-1]
+		} else {
+			e.rec["ev"] = "extra"
+		}
+		r.cbFor[k]++
+		r.evs = append(r.evs, e.rec)
 	}
-	force(w.host, c.Init)
-	r.evs = append(r.evs, vh.Ev{"ev": "new", "ut": c.Ut, "ht": c.Ht, "init": decode(w.host.HealthFlag()), "seq": c.Seq})
+}
+
+// waitFor absorbs events until pred holds; panics with diverged on the deadline.
+func (r *caseRun) waitFor(what string, d time.Duration, pred func() bool) {
+	deadline := time.After(d)
+	for !pred() {
+		select {
+		case e := <-r.ev:
+			r.absorb(e)
+		case <-deadline:
+			panic(diverged{what})
+		}
+	}
+}
+
+func (r *caseRun) tryWait(d time.Duration, pred func() bool) (ok bool) {
+	defer func() {
+		if x := recover(); x != nil {
+			if _, isD := x.(diverged); !isD {
+				panic(x)
+			}
+			ok = false
+		}
+	}()
+	r.waitFor("", d, pred)
+	return true
+}
+
+func (r *caseRun) releaseHold() {
+	h := r.holds[0]
+	r.holds = r.holds[1:]
+	close(h)
+}
+
+const slack = 3 * time.Second
+
+// deliver lets the late answer of check j out and waits until the loop has taken and handled it.
+func (r *caseRun) deliver(j int) {
+	s := r.c.Seq[j-1]
+	r.evs = append(r.evs, vh.Ev{"ev": "deliver", "j": j, "pos": latePos(s), "ok": lateAns(s)})
+	calls0 := int(atomic.LoadInt32(&r.calls))
+	resp0 := r.resps
+	r.answers[j] <- lateAns(s)
+	r.waitFor("late answer taken and handled", slack, func() bool { return r.resps > resp0 && r.settled })
+	if p := latePos(s); (p == 1 || p == 3 || p == 0) && int(atomic.LoadInt32(&r.calls)) != calls0 {
+		r.shifted++ // the next check started meanwhile: the position really driven is 2
+	}
+}
+
+func (r *caseRun) script() {
+	seq := r.c.Seq
+	n := len(seq)
+	// letTimeout waits for a fired timeout timer, lets its signal through and waits until the loop handled it.
+	letTimeout := func(d time.Duration) bool {
+		if !r.tryWait(d, func() bool { return len(r.holds) > 0 }) {
+			return false
+		}
+		t0 := r.timeouts
+		r.releaseHold()
+		r.waitFor("timeout signal taken and handled", slack, func() bool { return r.timeouts > t0 && r.settled })
+		return true
+	}
+	for k := 1; k <= n; k++ {
+		r.waitFor(fmt.Sprintf("check %d starts", k), slack, func() bool { return r.answers[k] != nil })
+		// timers of earlier checks that fired although the answer was given at once (slow machine): their checks
+		// are over, the signals stay held for ever
+		r.holds = nil
+		if k >= 2 && latePos(seq[k-2]) == 2 {
+			r.deliver(k - 1)
+		}
+		s := seq[k-1]
+		if s == "ok" || s == "fail" {
+			resp0 := r.resps
+			r.answers[k] <- s == "ok"
+			r.waitFor("answer taken and handled", slack, func() bool { return r.resps > resp0 && r.settled })
+			// no result: the answer was dropped and the code waits for the timeout of this check: let it have it
+			for r.cbFor[k] == 0 && letTimeout(hcTimeout+time.Second) {
+			}
+		} else {
+			if latePos(s) == 0 {
+				r.waitFor("timeout timer fires", hcTimeout+slack, func() bool { return len(r.holds) > 0 })
+				r.deliver(k)
+				// the check may already be over (its answer was taken): the signal may be dropped in any way
+				t0 := r.timeouts
+				r.releaseHold()
+				r.tryWait(300*time.Millisecond, func() bool { return r.timeouts > t0 && r.settled })
+			}
+			// a signal that is dropped belonged to an earlier check whose timer fired late: wait for the right one
+			for r.cbFor[k] == 0 && letTimeout(hcTimeout+time.Second) {
+			}
+			if latePos(s) == 1 {
+				r.deliver(k)
+			}
+		}
+		if r.cbFor[k] == 0 {
+			r.silent = true
+			r.evs = append(r.evs, vh.Ev{"ev": "silent", "k": k})
+		}
+		if k >= 2 && latePos(seq[k-2]) == 3 {
+			r.deliver(k - 1)
+		}
+	}
+}
+
+func (w *worker) run(c thrCase) (r *caseRun, status string) {
+	r = &caseRun{c: c, host: newHost(w.info, w.addr), ev: make(chan cev, 256), answers: map[int]chan bool{}, cbFor: map[int]int{}}
+	force(r.host, c.Init)
+	r.evs = append(r.evs, vh.Ev{"ev": "new", "ut": c.Ut, "ht": c.Ht, "init": decode(r.host.HealthFlag()), "seq": c.Seq})
 	w.cur.Store(r)
 	cfg := v2.HealthCheck{HealthCheckConfig: v2.HealthCheckConfig{Protocol: "verif-c16", HealthyThreshold: c.Ht,
 		UnhealthyThreshold: c.Ut, ServiceName: "c16", InitialDelaySeconds: api.DurationConfig{Duration: time.Millisecond}},
 		Timeout: hcTimeout, Interval: hcInterval, IntervalJitter: time.Nanosecond}
 	hc := healthcheck.CreateHealthCheck(cfg)
 	hc.AddHostCheckCompleteCb(func(h types.Host, changed bool, isHealthy bool) {
-		if atomic.LoadInt32(&r.over) == 1 {
-			// a checker that was stopped still reported: the address may be in use by the next case
-			atomic.AddInt64(&w.polluted, 1)
-			return
-		}
-		r.mu.Lock()
-		r.cbs++
-		n, k := r.cbs, r.calls
-		if n <= len(c.Seq) {
-			if (c.Seq[n-1] == "ok" || c.Seq[n-1] == "fail") && (r.enter[n].IsZero() || time.Since(r.enter[n]) > hcTimeout/2) {
-				r.slow = true
-			}
-			r.evs = append(r.evs, vh.Ev{"ev": "check", "n": n, "k": k, "r": c.Seq[n-1], "changed": changed, "cbok": isHealthy,
-				"flags": decode(h.HealthFlag()), "health": h.Health()})
-		} else {
-			r.extra++
-		}
-		r.mu.Unlock()
-		if n == len(c.Seq) {
-			close(r.finished)
-		}
+		r.send(cev{kind: "cb", k: int(atomic.LoadInt32(&r.calls)), rec: vh.Ev{"k": int(atomic.LoadInt32(&r.calls)), "changed": changed,
+			"cbok": isHealthy, "flags": decode(h.HealthFlag()), "health": h.Health()}})
 	})
-	hc.SetHealthCheckerHostSet(cluster.NewHostSet([]types.Host{w.host}))
-	status := "ok"
-	select {
-	case <-r.finished:
-	case <-time.After(2*time.Second + time.Duration(len(c.Seq))*4*(hcTimeout+hcInterval)):
-		status = "stalled"
-	}
+	hc.SetHealthCheckerHostSet(cluster.NewHostSet([]types.Host{r.host}))
+	status = "ok"
+	func() {
+		defer func() {
+			if x := recover(); x != nil {
+				d, isD := x.(diverged)
+				if !isD {
+					panic(x)
+				}
+				status = "stalled: " + d.what
+			}
+		}()
+		r.script()
+	}()
 	hc.Stop()
 	atomic.StoreInt32(&r.over, 1)
-	close(r.done)
 	w.cur.Store((*caseRun)(nil))
-	if status == "ok" {
-		if ln := atomic.LoadInt64(&lastNoise); ln >= t0.UnixNano() {
-			status = "noisy"
-		} else if atomic.LoadInt64(&w.polluted) != poll0 {
-			status = "noisy"
-		} else if r.slow {
-			status = "slow"
-		}
-	}
 	return r, status
 }
 
@@ -464,29 +612,8 @@ func runThr(casesPath, tracePath string, par int) {
 	healthcheck.RegisterSessionFactory("verif-c16", factory{})
 	cl := cluster.NewCluster(v2.Cluster{Name: "c16-thr", LbType: v2.LB_RANDOM})
 	info := cl.Snapshot().ClusterInfo()
-	vh.Sink(func(ev string, kv []interface{}) {
-		if ev != "hc.resp" {
-			return
-		}
-		h, _ := kv[0].(types.Host)
-		if h == nil {
-			return
-		}
-		v, ok := workers.Load(h.AddressString())
-		if !ok {
-			return
-		}
-		r, _ := v.(*worker).cur.Load().(*caseRun)
-		id, cur := kv[1].(uint64), kv[2].(uint64)
-		if r != nil && id != cur {
-			select {
-			case r.stale <- id:
-			default:
-			}
-		}
-	})
+	vh.Sink(thrSink)
 	defer vh.Sink(nil)
-	go watchdog()
 	cases := []thrCase{}
 	vh.Must(vh.ReadCases(casesPath, func(raw json.RawMessage) error {
 		var c thrCase
@@ -498,11 +625,10 @@ func runThr(casesPath, tracePath string, par int) {
 	}), "thr cases")
 	var next int64 = -1
 	var emitMu sync.Mutex
-	var nOK, nRetry, nStalled, nNoisy int64
+	var nOK, nRetry, nStalled, nShifted, nDeliver int64
 	var wg sync.WaitGroup
 	for p := 0; p < par; p++ {
-		w := &worker{addr: fmt.Sprintf("10.16.%d.%d:80", 1+p/200, 1+p%200)}
-		w.host = newHost(info, w.addr)
+		w := &worker{addr: fmt.Sprintf("10.16.%d.%d:80", 1+p/200, 1+p%200), info: info}
 		workers.Store(w.addr, w)
 		wg.Add(1)
 		go func() {
@@ -514,46 +640,37 @@ func runThr(casesPath, tracePath string, par int) {
 				}
 				var r *caseRun
 				status := ""
-				slowRuns := 0
-				for attempt := 0; attempt < 8; attempt++ {
+				for attempt := 0; attempt < 3; attempt++ {
 					r, status = w.run(cases[i])
-					if status == "slow" {
-						// an answer given at once was reported late: a scheduling stall, or what the code does with
-						// this sequence. Three times in a row without any stall seen by the watchdog = the code.
-						slowRuns++
-						if slowRuns >= 3 {
-							status = "ok"
-						}
-					} else {
-						slowRuns = 0
-					}
-					if status == "ok" {
+					// a check without any result is judged only when it happens in every attempt
+					if status == "ok" && !(r.silent && attempt < 2) {
 						break
 					}
 					atomic.AddInt64(&nRetry, 1)
-					time.Sleep(20 * time.Millisecond)
 				}
-				switch status {
-				case "ok":
+				if status == "ok" {
 					atomic.AddInt64(&nOK, 1)
+					atomic.AddInt64(&nShifted, int64(r.shifted))
 					emitMu.Lock()
 					for _, e := range r.evs {
+						if e["ev"] == "deliver" {
+							nDeliver++
+						}
 						tr.Emit(e)
 					}
 					emitMu.Unlock()
-				case "stalled":
+				} else {
 					atomic.AddInt64(&nStalled, 1)
 					b, _ := json.Marshal(cases[i])
-					fmt.Printf("STALLED %s events=%d\n", b, len(r.evs))
-				default:
-					atomic.AddInt64(&nNoisy, 1)
+					fmt.Printf("STALLED %s %s events=%d\n", status, b, len(r.evs))
 				}
 			}
 		}()
 	}
 	wg.Wait()
-	fmt.Printf("thr cases=%d ok=%d retries=%d stalled=%d noisy=%d events=%d\n", len(cases), nOK, nRetry, nStalled, nNoisy, tr.Len())
-	sum, _ := json.Marshal(map[string]int64{"cases": int64(len(cases)), "ok": nOK, "retries": nRetry, "stalled": nStalled, "noisy": nNoisy})
+	fmt.Printf("thr cases=%d ok=%d retries=%d stalled=%d deliveries=%d shifted=%d events=%d\n", len(cases), nOK, nRetry, nStalled, nDeliver, nShifted, tr.Len())
+	sum, _ := json.Marshal(map[string]int64{"cases": int64(len(cases)), "ok": nOK, "retries": nRetry, "stalled": nStalled,
+		"late_deliveries": nDeliver, "late_deliveries_shifted": nShifted})
 	os.WriteFile(tracePath+".summary", sum, 0644)
 }
 
